@@ -15,7 +15,7 @@ EXPLANATION = (
     "not decided.")
 # every anchor of these rules lives in the h3 crate: thorough tier repeats them on the feature-less build
 EXTRA_CONFIGS = ["h3-plain"]
-RULES = "C08-a monotone send (A2/A5/A4); C08-b accept/reject line (A5/A3); C08-c announced id is a successor (A4); C08-d client side (A2/A3/A5)"
+RULES = "C08-a monotone send (A2/A5/A4); C08-b accept/reject line (A5/A3); C08-c announced id is a successor (A4); C08-d client side (A2/A3/A5); shared through a proxy: C16-a under C08-c"
 
 CI = "h3::connection::ConnectionInner::"
 SV = "h3::server::connection::Connection::"
@@ -279,3 +279,7 @@ def run(ctx):
             ok = ok and bool(c) and ((c[0][2] == "true") == p.ret_shape().startswith("Some(StreamError::RemoteClosing"))
         ctx.check(ok, "C08-d", cp.key, "closing -> Some(RemoteClosing)", "check_peer_connection_closing: %s" % [(p.ret_shape(), [(t[1][:30], t[2]) for t in p.tests]) for p in ps], "")
     ctx.assume("StreamId ordering is the derived ordering of its inner integer (C16)")
+    # the identifier a GOAWAY carries is written and read as a varint: the varint codec tables (C16-a) run under this property too
+    if not getattr(ctx, "nested", False):
+        from rules import C16 as _c16p, shared as _shp
+        _c16p.run(_shp.Proxy(ctx, ("C16-a",), "C08-c"))
